@@ -239,15 +239,6 @@ Definition scan_pure (g : val -> val -> res val) (l : list val) : res val :=
   | x :: l' => match acc_res g x l' with Ok r => Ok (VList (x :: r)) | Err e => Err e | OutOfFuel => OutOfFuel end
   end.
 
-(* Klong truth (the reference: 0, [] and "" are false, everything else is true) *)
-Definition ktruth (v : val) : bool :=
-  match v with
-  | VInt z => negb (Z.eqb z 0)
-  | VReal f => negb (Floats.SpecFloat.SFeqb f (Floats.SpecFloat.S754_zero false))
-  | VStr [] => false
-  | VList [] => false
-  | _ => true
-  end.
 (* the answers of a While test on which Python's truth (the implementation) is not Klong's: a list, an empty dictionary *)
 Definition while_truth_known (v : val) : bool :=
   match v with VList _ => true | VDict [] => true | _ => false end.
